@@ -12,7 +12,7 @@ from vlib import core
 
 THEOREMS = ["C03_default_of_spec", "C03_resolution", "C03_default_of_total", "C03_compute_partition",
             "C03_compute_targets", "C03_uniform",
-            "C03_default_never_inherits"]
+            "C03_default_never_inherits", "C03_spec", "C03_resolves_iff"]
 PROPS = "theories/Props/C03.v"
 REGISTRY = {
     "level": "proof",
@@ -22,8 +22,9 @@ REGISTRY = {
             "C03_uniform/C03_default_never_inherits (Props/C03.v): for every finite inherits map (chains, forks, cycles, self "
             "loops, inheritance from the default), every set of locale files and every value path, the model's "
             "DefaultedLocales resolve each locale to the first locale of its inherits walk that defines the key, else the "
-            "default; compute() groups the non-defining locales by that target and every target defines the key. The bridge "
-            "to the executable predicate (C03_spec_statement) is not proved. The model is tied to /repo by running "
+            "default; compute() groups the non-defining locales by that target and every target defines the key. C03_spec: the "
+            "executable predicate spec_C03 holds of the model on every well-formed case; C03_resolves_iff: the inductive "
+            "relation Resolves coincides with the function first_defined. The model is tied to /repo by running "
             "parse_locales on generated projects (all functional inherits graphs over <=4 locales in quick, <=5 in thorough, "
             "x all per-locale presence patterns of a key) and evaluating spec_C03 on the real output.",
     "design_ref": "DESIGN.md §5 C03",
@@ -182,18 +183,19 @@ def run(ctx):
     exe = mc.build_variant(ctx, ["json"])
     ok, problems = core.coq_audit(ctx, PROPS, THEOREMS)
     projs = gen_projects(ctx)
-    metas, codes = mc.evaluate(ctx, exe, projs, False, "n", "check_C03")
+    metas, codes = mc.evaluate(ctx, exe, projs, False, "n", "check_C03s")
     # the suppress_key_warnings build chooses DefaultTo::Explicit(default) instead of Implicit: same resolution
     exe_s = mc.build_variant(ctx, ["json", "suppress"])
     sub = [kp for kp in projs if kp[0] != "exhaustive"] + [kp for kp in projs if kp[0] == "exhaustive"][:60]
-    metas_s, codes_s = mc.evaluate(ctx, exe_s, sub, True, "s", "check_C03")
+    metas_s, codes_s = mc.evaluate(ctx, exe_s, sub, True, "s", "check_C03s")
     metas, codes = metas + metas_s, codes + codes_s
     bad = [m for m, c in zip(metas, codes) if c == 3]
     dis = [m for m, c in zip(metas, codes) if c == 2]
+    skipped = [m for m, c in zip(metas, codes) if c == 1]
     panics = [m for m in metas if m["impl"].get("kind") == "panic"]
     if bad:
         bad.sort(key=lambda m: mc.size_of(m["project"]))
-        small = mc.shrink(ctx, exe_s if bad[0]["suppress"] else exe, bad[0], "check_C03")
+        small = mc.shrink(ctx, exe_s if bad[0]["suppress"] else exe, bad[0], "check_C03s")
         core.violation(ctx, "spec", {
             "failing_input": {"project": small, "cargo_toml": mc.cargo_toml(small),
                               "files": {k: mc.tree_obj(t) for k, t in small["files"].items()},
@@ -228,7 +230,7 @@ def run(ctx):
                 "the key" % (4 if ctx.quick else 5),
         "samples": [{"project": m["project"], "impl": m["impl"]["raw"][:600]} for m in metas[:2] + metas[-2:]],
         "traces_validated_against_impl": len(metas), "disagreements": len(dis), "spec_failures_on_impl": len(bad),
-        "panics": len(panics), "error_results": sum(1 for m in metas if m["impl"].get("kind") not in ("ok", "panic")),
+        "skipped_outside_model": len(skipped), "panics": len(panics), "error_results": sum(1 for m in metas if m["impl"].get("kind") not in ("ok", "panic")),
         "input_distribution": hist, "audit_problems": problems,
     }, assumptions=[
         "leaf values are opaque: written as the literal v<id> (every 7th with an interpolated variable), identified in the "
@@ -246,11 +248,11 @@ def replay(ctx, path):
         return 0
     sup = bool(fi.get("suppress_key_warnings"))
     exe = mc.build_variant(ctx, ["json", "suppress"] if sup else ["json"])
-    metas, codes = mc.evaluate(ctx, exe, [("replay", p)], sup, "replay", "check_C03")
+    metas, codes = mc.evaluate(ctx, exe, [("replay", p)], sup, "replay", "check_C03s")
     print(mc.cargo_toml(p))
     print(json.dumps(fi.get("files"), indent=1))
     print("implementation:", metas[0]["impl"]["raw"])
-    print("check_C03 =", codes[0], "(3 = spec violated, 2 = differs from model, 0 = ok)")
+    print("check_C03s =", codes[0], "(3 = spec violated, 2 = differs from model, 0 = ok)")
     if codes[0] == 3:
         print("VIOLATION property=C03 replay=%s" % path)
         return 1
